@@ -663,7 +663,13 @@ func (d *DefaultServerDispatcher) dispatchNextRequest(clientID string) (clientCt
 		return
 	}
 	el := q.Peek()
-	bundle, _ := el.(RequestBundle)
+	bundle, ok := el.(RequestBundle)
+	if !ok {
+		// The client disconnected and connected again since the message pump looked at its queue:
+		// this is the empty queue of the new connection, the request went away with the old one
+		log.Errorf("failed to dispatch next request for %s, request queue is empty", clientID)
+		return
+	}
 	jsonMessage := bundle.Data
 	callID := bundle.Call.GetUniqueId()
 	d.pendingRequestState.AddPendingRequest(clientID, callID, bundle.Call.Payload)
